@@ -186,12 +186,168 @@ func (e *Env) SetBacking(heap map[string]*smt.Term, elem types.Type, ref, arr *s
 	heap[n] = smt.Store(e.arrHeap(heap, elem), ref, arr)
 }
 
+// Root cells are stored leaf by leaf (Burstall style, recursively through single-constructor
+// datatypes): a cell of struct type S with a slice field f lives in the heaps H$S.f.sl-ref,
+// H$S.f.sl-len, ... Each is an array from references to a scalar sort, so reading a field never
+// produces a datatype term and the queries stay in the bit-vector/array fragment.
+
+//
+// A field whose type is itself a Go struct (an embedded object such as a sync.Mutex, a list.List
+// or a nested record) is not part of its parent's cell: it is an object of its own whose
+// reference is derived from the parent's reference by an injective function fa$<S>.<f>. Taking
+// the address of such a field therefore yields an ordinary pointer (&s.waiters can be stored in
+// Element.list and compared), and both views of the memory coincide.
+
+type leaf struct {
+	name string // heap name
+	sort *smt.Sort
+}
+
+func isGoStruct(t types.Type) bool {
+	if _, ok := t.(*types.TypeParam); ok {
+		return false
+	}
+	_, ok := t.Underlying().(*types.Struct)
+	return ok
+}
+
+// builtinData: the encodings of strings, slices and interfaces (flattened into leaves).
+func builtinData(s *smt.Sort) bool {
+	return s == StrSort || s == SliceSort || s == IfaceSort
+}
+
+// FieldAddr is the reference of the embedded object in field fi of the struct cell ref of type t.
+func (e *Env) FieldAddr(t types.Type, fi int, ref *smt.Term) *smt.Term {
+	si := e.T.StructOf(t)
+	name := "fa$" + si.Sort.Name + "." + sanitize(si.Fields[fi].Name())
+	d := e.T.D
+	if d.Func(name) == nil {
+		d.AddFunc(name, smt.Int, smt.Int)
+		inv := "fainv$" + si.Sort.Name + "." + sanitize(si.Fields[fi].Name())
+		d.AddFunc(inv, smt.Int, smt.Int)
+		d.AddFunc("fatag", smt.Int, smt.Int)
+		e.T.faCount++
+		r := smt.BVar("r!fa", smt.Int)
+		app := smt.App(name, smt.Int, r)
+		d.AddAxiom("embedded object reference "+name, smt.Forall([]*smt.Term{r}, smt.And(
+			smt.Eq(smt.App(inv, smt.Int, app), r),
+			smt.Eq(smt.App("fatag", smt.Int, app), smt.IntLit(int64(e.T.faCount))),
+			smt.ILt(app, smt.IntLit(0))), app))
+	}
+	return smt.App(name, smt.Int, ref)
+}
+
+func (e *Env) leafNames(prefix string, s *smt.Sort, out *[]leaf) {
+	if builtinData(s) {
+		for _, f := range s.Ctors[0].Fields {
+			e.leafNames(prefix+"."+f.Name, f.Sort, out)
+		}
+		return
+	}
+	*out = append(*out, leaf{name: prefix, sort: smt.Array(smt.Int, s)})
+}
+
+// rootLeaves lists the heaps that hold cells of type t, embedded objects included.
+func (e *Env) rootLeaves(t types.Type) []leaf {
+	var out []leaf
+	e.cellLeaves(t, &out, 0)
+	return out
+}
+
+func (e *Env) cellLeaves(t types.Type, out *[]leaf, depth int) {
+	if depth > 6 {
+		return
+	}
+	if isGoStruct(t) {
+		si := e.T.StructOf(t)
+		for _, f := range si.Fields {
+			if isGoStruct(f.Type()) {
+				e.cellLeaves(f.Type(), out, depth+1)
+			} else {
+				e.leafNames("H$"+si.Sort.Name+"."+sanitize(f.Name()), e.T.SortOf(f.Type()), out)
+			}
+		}
+		return
+	}
+	s := e.T.SortOf(t)
+	e.leafNames(heapName("H", s), s, out)
+}
+
+func (e *Env) leafValue(heap map[string]*smt.Term, prefix string, s *smt.Sort, ref *smt.Term) *smt.Term {
+	if builtinData(s) {
+		c := s.Ctors[0]
+		args := make([]*smt.Term, len(c.Fields))
+		for i, f := range c.Fields {
+			args[i] = e.leafValue(heap, prefix+"."+f.Name, f.Sort, ref)
+		}
+		return smt.MkCtor(s, c, args...)
+	}
+	return smt.Select(e.heapVar(heap, prefix, smt.Array(smt.Int, s)), ref)
+}
+
+func (e *Env) setLeafValue(heap map[string]*smt.Term, prefix string, s *smt.Sort, ref, v *smt.Term) {
+	if builtinData(s) {
+		c := s.Ctors[0]
+		for i, f := range c.Fields {
+			e.setLeafValue(heap, prefix+"."+f.Name, f.Sort, ref, smt.Acc(s, c, i, v))
+		}
+		return
+	}
+	cur := e.heapVar(heap, prefix, smt.Array(smt.Int, s))
+	if v == smt.Select(cur, ref) {
+		return // this leaf is not touched by the update
+	}
+	heap[prefix] = smt.Store(cur, ref, v)
+}
+
+// cellValue is the value of the cell of type t at reference ref.
+func (e *Env) cellValue(heap map[string]*smt.Term, t types.Type, ref *smt.Term) *smt.Term {
+	if isGoStruct(t) {
+		si := e.T.StructOf(t)
+		args := make([]*smt.Term, len(si.Fields))
+		for i, f := range si.Fields {
+			if isGoStruct(f.Type()) {
+				args[i] = e.cellValue(heap, f.Type(), e.FieldAddr(t, i, ref))
+			} else {
+				args[i] = e.leafValue(heap, "H$"+si.Sort.Name+"."+sanitize(f.Name()), e.T.SortOf(f.Type()), ref)
+			}
+		}
+		return smt.MkCtor(si.Sort, si.Ctor, args...)
+	}
+	s := e.T.SortOf(t)
+	return e.leafValue(heap, heapName("H", s), s, ref)
+}
+
+func (e *Env) setCellValue(heap map[string]*smt.Term, t types.Type, ref, v *smt.Term) {
+	if isGoStruct(t) {
+		si := e.T.StructOf(t)
+		for i, f := range si.Fields {
+			fv := smt.Acc(si.Sort, si.Ctor, i, v)
+			if isGoStruct(f.Type()) {
+				e.setCellValue(heap, f.Type(), e.FieldAddr(t, i, ref), fv)
+			} else {
+				e.setLeafValue(heap, "H$"+si.Sort.Name+"."+sanitize(f.Name()), e.T.SortOf(f.Type()), ref, fv)
+			}
+		}
+		return
+	}
+	s := e.T.SortOf(t)
+	e.setLeafValue(heap, heapName("H", s), s, ref, v)
+}
+
+// Field is the location of field fi (of type ft) of the struct location l.
+func (e *Env) Field(l *Loc, fi int, ft types.Type) *Loc {
+	if l.Kind == LRoot && len(l.Path) == 0 && l.global == nil && isGoStruct(ft) && isGoStruct(l.Root) {
+		return &Loc{Kind: LRoot, Ref: e.FieldAddr(l.Root, fi, l.Ref), Root: ft, fresh: l.fresh}
+	}
+	return l.extend(pathElem{Field: fi, T: ft})
+}
+
 // rootValue reads the root cell of a location.
 func (e *Env) rootValue(heap map[string]*smt.Term, l *Loc) *smt.Term {
 	switch l.Kind {
 	case LRoot:
-		n, s := e.rootHeapName(l.Root)
-		return smt.Select(e.heapVar(heap, n, s), l.Ref)
+		return e.cellValue(heap, l.Root, l.Ref)
 	case LElem:
 		return smt.Select(e.Backing(heap, l.Root, l.Ref), l.Idx)
 	}
@@ -201,8 +357,7 @@ func (e *Env) rootValue(heap map[string]*smt.Term, l *Loc) *smt.Term {
 func (e *Env) setRootValue(heap map[string]*smt.Term, l *Loc, v *smt.Term) {
 	switch l.Kind {
 	case LRoot:
-		n, s := e.rootHeapName(l.Root)
-		heap[n] = smt.Store(e.heapVar(heap, n, s), l.Ref, v)
+		e.setCellValue(heap, l.Root, l.Ref, v)
 	case LElem:
 		e.SetBacking(heap, l.Root, l.Ref, smt.Store(e.Backing(heap, l.Root, l.Ref), l.Idx, v))
 	default:
@@ -214,6 +369,18 @@ func (e *Env) setRootValue(heap map[string]*smt.Term, l *Loc, v *smt.Term) {
 func (e *Env) Load(heap map[string]*smt.Term, l *Loc) *smt.Term {
 	if l.Kind == LArr && len(l.Path) == 0 {
 		unsupp("load of whole backing-array object")
+	}
+	if l.Kind == LRoot && len(l.Path) > 0 && l.Path[0].Idx == nil && isGoStruct(l.Root) && l.global == nil {
+		// a field of a struct cell: read its leaves directly
+		si := e.T.StructOf(l.Root)
+		f := si.Fields[l.Path[0].Field]
+		v := e.leafValue(heap, "H$"+si.Sort.Name+"."+sanitize(f.Name()), e.T.SortOf(f.Type()), l.Ref)
+		t := l.Path[0].T
+		for _, pe := range l.Path[1:] {
+			v = e.project(v, t, pe)
+			t = pe.T
+		}
+		return v
 	}
 	v := e.rootValue(heap, l)
 	t := l.Root
@@ -236,6 +403,15 @@ func (e *Env) project(v *smt.Term, t types.Type, pe pathElem) *smt.Term {
 func (e *Env) Store(heap map[string]*smt.Term, l *Loc, nv *smt.Term) {
 	if l.Kind == LArr && len(l.Path) == 0 {
 		unsupp("store of whole backing-array object")
+	}
+	if l.Kind == LRoot && len(l.Path) > 0 && l.Path[0].Idx == nil && isGoStruct(l.Root) && l.global == nil {
+		si := e.T.StructOf(l.Root)
+		f := si.Fields[l.Path[0].Field]
+		prefix := "H$" + si.Sort.Name + "." + sanitize(f.Name())
+		fs := e.T.SortOf(f.Type())
+		old := e.leafValue(heap, prefix, fs, l.Ref)
+		e.setLeafValue(heap, prefix, fs, l.Ref, e.update(old, l.Path[0].T, l.Path[1:], nv))
+		return
 	}
 	root := e.rootValue(heap, l)
 	e.setRootValue(heap, l, e.update(root, l.Root, l.Path, nv))
